@@ -95,7 +95,7 @@ func init() { Register(checkC10{}) }
 func (checkC10) ID() string    { return "C10" }
 func (checkC10) Level() string { return "fault_enumeration" }
 func (checkC10) Rule() string {
-	return "worlds drawn from the seed; for the selected blocks (quick: a sample including one-time-adjustment, developer-payout, snapshot blocks when present; thorough: all) every upstream request of the block x 8 fault kinds and every SQL statement of the block x injected failure is enumerated as a single transient fault, plus sampled pairs (second fault during the retry); distinct = distinct (block, faulted request or statement site, fault kind); non-trivial = the fault actually fired and the block had at least one write"
+	return "worlds drawn from the seed; for the selected blocks (quick: a sample including one-time-adjustment, developer-payout, snapshot blocks when present; thorough: all) every upstream request of the block x 8 fault kinds and every SQL statement of the block x injected failure (for queries both at the call and at the first step of the result set) is enumerated as a single transient fault, plus sampled pairs (second fault during the retry); distinct = distinct (block, faulted request or statement site, fault kind); non-trivial = the fault actually fired and the block had at least one write"
 }
 
 func (checkC10) Gen(seed uint64, tier string) (*Scenario, error) {
@@ -189,6 +189,9 @@ func (f c10Fault) site(ref *Ref) string {
 	if f.SQL != nil {
 		st := ref.Stmts[f.Height]
 		if f.SQL.Idx < len(st) {
+			if f.SQL.Step {
+				return fmt.Sprintf("%s/%s(first step)", st[f.SQL.Idx].Caller, st[f.SQL.Idx].Op)
+			}
 			return fmt.Sprintf("%s/%s", st[f.SQL.Idx].Caller, st[f.SQL.Idx].Op)
 		}
 	}
@@ -254,6 +257,9 @@ func (checkC10) Run(env *Env, sc *Scenario) (*Violation, error) {
 						continue
 					}
 					blk = append(blk, c10Fault{Height: h, SQL: &sqlPoint{Height: h, Attempt: 1, Idx: i}})
+					if st.Op == "query" {
+						blk = append(blk, c10Fault{Height: h, SQL: &sqlPoint{Height: h, Attempt: 1, Idx: i, Step: true}})
+					}
 				}
 				if plan.MaxPerBlock > 0 && len(blk) > plan.MaxPerBlock {
 					rng.Shuffle(len(blk), func(i, j int) { blk[i], blk[j] = blk[j], blk[i] })
@@ -377,6 +383,10 @@ func (checkC10) Run(env *Env, sc *Scenario) (*Violation, error) {
 							actual += " + "
 						}
 						actual += ev.Caller + "/" + ev.Op
+						if p.Step && ev.Op == "query" {
+							actual += "(first step)"
+							return sim.ErrInjectedAtStep
+						}
 						return sim.ErrInjected
 					}
 				}
